@@ -55,8 +55,8 @@ def plan(tier: str) -> list:
     if tier == "quick":
         return [{"name": "nofault", "n": 4000, "faults": False, "big": False},
                 {"name": "fault", "n": 10000, "faults": True, "big": False}]
-    return [{"name": "nofault", "n": 30000, "faults": False, "big": True},
-            {"name": "fault", "n": 90000, "faults": True, "big": True}]
+    return [{"name": "nofault", "n": 300000, "faults": False, "big": True},
+            {"name": "fault", "n": 900000, "faults": True, "big": True}]
 
 
 def warmup() -> None:
